@@ -4,8 +4,11 @@ request whose only fault is the size of one header field.
 
 Run:  cd /tmp/wa_C12 && PYTHONPATH=/tmp/wa_C12 /venv/bin/python _finding/1/demo.py
 """
+import os as _os
+_TREE_UNDER_TEST = _os.environ.get("GVERIF_REPO") or _os.getcwd()   # the checkout under test (was the auditing agent's scratch worktree)
+
 import sys
-sys.path.insert(0, "/tmp/wa_C12")
+sys.path.insert(0, _TREE_UNDER_TEST)
 
 import os
 import shutil
@@ -15,7 +18,7 @@ import tempfile
 import time
 
 import gunicorn
-assert gunicorn.__file__.startswith("/tmp/wa_C12/"), gunicorn.__file__
+assert gunicorn.__file__.startswith(_TREE_UNDER_TEST), gunicorn.__file__
 
 APP = '''
 def app(environ, start_response):
@@ -28,7 +31,7 @@ def app(environ, start_response):
 
 def start(tmp, name, *opts):
     path = os.path.join(tmp, name + ".sock")
-    env = dict(os.environ, PYTHONPATH="/tmp/wa_C12" + os.pathsep + tmp)
+    env = dict(os.environ, PYTHONPATH=_TREE_UNDER_TEST + os.pathsep + tmp)
     proc = subprocess.Popen(
         [sys.executable, "-m", "gunicorn", "--bind", "unix:" + path,
          "--workers", "1", "--timeout", "20", "--log-level", "error",
